@@ -110,6 +110,9 @@ func observeEngine(in engIn) (Observed, error) {
 	if !spellsOK(in.Q) {
 		return Observed{}, fmt.Errorf("a re-spelt literal does not denote its number")
 	}
+	if !selTextsOK(in.Q) {
+		return Observed{}, fmt.Errorf("a selector source does not carry the text of its syntax tree")
+	}
 	sql := in.Q.SQL()
 	var opts []genql.QueryOption
 	if in.Wrapped {
